@@ -20,6 +20,34 @@ type DiffMeta struct {
 	Max     int          `json:"max"`              // answers to pull
 	Assert  bool         `json:"assert,omitempty"` // load the program with assertz/1 instead of Exec
 	Family  string       `json:"family,omitempty"`
+	QVars   []int64      `json:"qvars"` // the variables that are compared (default: all 0..NVars-1)
+}
+
+// qvars returns the ids of the compared query variables.
+func (d *DiffMeta) qvars() []int64 {
+	if d.QVars != nil {
+		return d.QVars
+	}
+	out := make([]int64, d.NVars)
+	for i := range out {
+		out[i] = int64(i)
+	}
+	return out
+}
+
+// parseQuery builds a DiffMeta query from text; anonymous variables are not compared.
+func parseQuery(q string) (*term.Term, int, []int64) {
+	t, names, err := term.ParseTerm(q)
+	if err != nil {
+		panic(q + ": " + err.Error())
+	}
+	qv := []int64{}
+	for i, n := range names {
+		if n != "_" {
+			qv = append(qv, int64(i))
+		}
+	}
+	return t, len(names), qv
 }
 
 func qvar(id int64) string { return fmt.Sprintf("V%d", id) }
@@ -70,9 +98,9 @@ func (d *DiffMeta) refRun(budget int64, opt ref.Options) (*ref.Outcome, error) {
 	if err := ref.LoadProgram(db, append(term.MustProgram(ref.Prelude), d.Program...)); err != nil {
 		return nil, err
 	}
-	vars := make([]*term.Term, d.NVars)
-	for i := range vars {
-		vars[i] = term.V(int64(i))
+	var vars []*term.Term
+	for _, id := range d.qvars() {
+		vars = append(vars, term.V(id))
 	}
 	max := d.Max
 	if max <= 0 {
@@ -83,7 +111,11 @@ func (d *DiffMeta) refRun(budget int64, opt ref.Options) (*ref.Outcome, error) {
 
 // canonAnswer renders one answer (tuple of the query variables + nothing else) canonically.
 func canonTuple(ts []*term.Term) string {
-	c := term.Canon(ts...)
+	norm := make([]*term.Term, len(ts))
+	for i, t := range ts {
+		norm[i] = dropErrorContext(t)
+	}
+	c := term.Canon(norm...)
 	var sb strings.Builder
 	for i, t := range c {
 		if i > 0 {
@@ -94,10 +126,36 @@ func canonTuple(ts []*term.Term) string {
 	return sb.String()
 }
 
-func engineAnswer(a map[string]*term.Term, n int) ([]*term.Term, bool) {
-	out := make([]*term.Term, n)
-	for i := 0; i < n; i++ {
-		t, ok := a[qvar(int64(i))]
+// dropErrorContext replaces the second argument of every error/2 term by a constant: the Context of an
+// error term is implementation defined (ISO 7.12.1) and must not be compared.
+func dropErrorContext(t *term.Term) *term.Term {
+	if t.K != term.KCmp {
+		return t
+	}
+	if t.IsCmp("error", 2) {
+		return term.C("error", dropErrorContext(t.Args[0]), term.A("$context"))
+	}
+	var args []*term.Term
+	for i, a := range t.Args {
+		b := dropErrorContext(a)
+		if b != a && args == nil {
+			args = make([]*term.Term, len(t.Args))
+			copy(args, t.Args[:i])
+		}
+		if args != nil {
+			args[i] = b
+		}
+	}
+	if args == nil {
+		return t
+	}
+	return &term.Term{K: term.KCmp, S: t.S, Args: args}
+}
+
+func engineAnswer(a map[string]*term.Term, ids []int64) ([]*term.Term, bool) {
+	out := make([]*term.Term, len(ids))
+	for i, id := range ids {
+		t, ok := a[qvar(id)]
 		if !ok {
 			return nil, false
 		}
@@ -156,7 +214,7 @@ func compareRun(d *DiffMeta, o *ref.Outcome, out *run.Outcome, compareEvents boo
 	}
 	var got []string
 	for _, a := range st.Answers {
-		t, ok := engineAnswer(a, d.NVars)
+		t, ok := engineAnswer(a, d.qvars())
 		if !ok {
 			return diffResult{Status: Inconclusive, Msg: "answer lacks a query variable"}
 		}
